@@ -265,6 +265,49 @@ func RunC19(tier string) int {
 			}
 			record("slug.Pack", desc, r, out.Panic, "pack", args[i])
 		})
+		// the same call as an unprivileged user on trees it cannot fully read: errors, not panics
+		{
+			upool := core.NewPool(65534)
+			perm := []TNode{
+				{Path: "src/ro", Kind: "dir", Mode: 0444}, {Path: "src/ro/f", Kind: "file", Body: "f"}, // listable, not searchable: the walk gets an error with a nil FileInfo for ro/f
+				{Path: "src/none", Kind: "dir", Mode: -1}, {Path: "src/none/f", Kind: "file", Body: "f"},
+				{Path: "src/unread", Kind: "file", Body: "u", Mode: -1},
+				{Path: "src/wo", Kind: "dir", Mode: 0333}, {Path: "src/wo/f", Kind: "file", Body: "f"},
+				{Path: "out/ro", Kind: "dir", Mode: 0444}, {Path: "out/ro/f", Kind: "file", Body: "f"}, {Path: "src/xro", Kind: "link", Target: "../out/ro"},
+			}
+			rules := []string{"", "ro/\n", "ro/\n!ro/f\n", "none/\n", "*\n"}
+			var ujobs []PackArg
+			for _, ig := range []bool{false, true} {
+				for _, de := range []bool{false, true} {
+					for _, rf := range rules {
+						t := append(append([]TNode{}, base...), perm...)
+						if rf != "" {
+							if !ig {
+								continue
+							}
+							t = append(t, TNode{Path: "src/.terraformignore", Kind: "file", Body: rf})
+						}
+						ujobs = append(ujobs, PackArg{Nodes: t, Ignore: ig, Deref: de, NoTrees: true, UID: 65534})
+					}
+				}
+			}
+			upool.Map("pack", len(ujobs), func(i int) any { return ujobs[i] }, func(i int, r core.Result) {
+				desc := fmt.Sprintf("uid=65534 Pack(ignore=%v deref=%v) tree [%s]", ujobs[i].Ignore, ujobs[i].Deref, TreeString(ujobs[i].Nodes))
+				var out PackOut
+				if !r.Hung && !r.Crashed && r.Panic == "" && r.Err == "" {
+					json.Unmarshal(r.Out, &out)
+					if out.SetupErr != "" {
+						rep.NoVerdict++
+						return
+					}
+					rep.Outcome("returned")
+					rep.Nontrivial("upack" + out.Err + fmt.Sprint(out.Files))
+				}
+				record("slug.Pack", desc, r, out.Panic, "pack", ujobs[i])
+			})
+			rep.States += len(ujobs)
+			parts = append(parts, map[string]any{"part": "pack-as-uid-65534-on-unreadable-trees", "cases": len(ujobs)})
+		}
 		rep.States += len(jobs)
 		parts = append(parts, map[string]any{"part": "pack-trees+rule-files", "cases": len(jobs), "trees": len(trees), "rule_files": len(ruleFiles)})
 		fmt.Printf("  part pack: cases=%d (trees=%d × 4 option sets, rule files=%d)\n", len(jobs), len(trees), len(ruleFiles))
